@@ -521,6 +521,10 @@ func trimWhitespace(t *Tree, s string) string {
 		}
 
 		if len(str) == 0 {
+			// A blank line is still a line: keep its line-break
+			if i != len(lines)-1 {
+				trimmed += "\n"
+			}
 			continue
 		}
 
